@@ -18,8 +18,19 @@
    the early exit unless its queue is empty).  remove_count events are skipped.  A non-zero result of
    nsync_sem_wait_with_cancel_ is inferred (the thread arrives at line 253 while the model is at the semaphore wait) and
    becomes the choice [CAlt].
+     * nsync_wait_n on the cv (cv_mix MODE 3 / MODE 7; XWaitN (Some m) when the model thread holds the mutex at the call,
+       XWaitN None otherwise): the store waiting = 0 of wait.c (54), cv_ready_time's load (cv.c 472) with its value,
+       inside cv_enqueue the store waiting = 1 (481), inside cv_dequeue the load (492) and whether the store waiting = 0
+       (502) happened, the spin load (515); its unlock / lock callbacks are MuModel steps like those of a native wait; its
+       P on the thread's semaphore; wake_waiters' store waiting = 0 on the record (region stk<t>: the record lives in the
+       caller's frame).  The sections [XnEnq] / [XnDeq] are taken at the stores that release the cv spinlock (483 / 510).
+       A deadline that ends the sleep is inferred (the thread arrives at cv_dequeue while the model is at the semaphore).
+       The semaphore block of a thread that has never slept before is learnt at the first V the model says targets it.
    Snapshots (S lines): the cv queue is compared whenever no cv section is open, the mutex queue whenever the mutex
-   spinlock is free in the model.  At the end every logged return of a wait must hold the mutex in the declared mode. *)
+   spinlock is free in the model.  At the end every logged return of a wait must hold the mutex in the declared mode.
+   Coverage labels of wake_waiters' acquiring CAS: transfer:<n> (mutex-queue members that were transferred),
+   cas1:moved / cas1:nobody, and cas1:nobody+waiting-cleared when the releasing CAS that follows a CAS which transferred
+   nobody clears MU_WAITING (the F15 shape, repaired code). *)
 open Rcommon
 open MuModel
 open MuXferModel
@@ -30,7 +41,7 @@ let fid_mu = function
   | "nsync_mu_runlock" -> 800 | "nsync_mu_unlock_slow_" -> 900 | _ -> -1
 let fid_cv = function
   | "wake_waiters" -> 1000 | "nsync_cv_wait_with_deadline_generic" -> 1100 | "nsync_cv_signal" -> 1200
-  | "nsync_cv_broadcast" -> 1300 | _ -> -1
+  | "nsync_cv_broadcast" -> 1300 | "cv_ready_time" -> 1400 | "cv_enqueue" -> 1500 | "cv_dequeue" -> 1600 | _ -> -1
 
 let () =
   load_sites Sys.argv.(2);
@@ -41,17 +52,30 @@ let () =
   let main_blk : (int, string) Hashtbl.t = Hashtbl.create 16 in
   let thread_of_blk : (string, int) Hashtbl.t = Hashtbl.create 16 in
   let removed : (int, bool) Hashtbl.t = Hashtbl.create 16 in
+  let nobody : (int, bool) Hashtbl.t = Hashtbl.create 16 in
   let cv_open = ref false in
   let last_ev = ref "" in
   let fail msg = raise (Mismatch (Printf.sprintf "%s (at trace event: %s)" msg !last_ev)) in
   let nat t = nat_of_int t in
   let code t = int_of_z (MuXferReplay.xpc_code !w (nat t)) in
   let busy t = MuXferReplay.mu_busy !w (nat t) in
+  (* posts by code outside the model (the note's notifier) on a semaphore whose owner is not known yet: delivered as [EnvV]
+     when the owner is learnt (a post only adds to the count; its owner cannot have completed a P on it in between without
+     the block being known) *)
+  let pending_v : (string, int) Hashtbl.t = Hashtbl.create 16 in
   let learn_blk t blk =
     (match (try Some (Hashtbl.find main_blk t) with Not_found -> None) with
      | Some b when b <> blk -> fail (Printf.sprintf "thread %d uses waiter %s, it used %s before" t blk b)
      | _ -> ());
-    Hashtbl.replace main_blk t blk; Hashtbl.replace thread_of_blk blk t in
+    Hashtbl.replace main_blk t blk; Hashtbl.replace thread_of_blk blk t;
+    (match (try Some (Hashtbl.find pending_v blk) with Not_found -> None) with
+     | Some k ->
+       Hashtbl.remove pending_v blk;
+       for _ = 1 to k do
+         let (w', _) = MuXferModel.xstep !w (EnvV (nat_of_int t)) in
+         w := w'; incr envs; cover "sem:V-env-late"
+       done
+     | None -> ()) in
   let thr t c =
     if MuXferReplay.is_desig_entry !w (nat t) then cover "desig-entry";
     let (w', ev) = MuXferModel.xstep !w (Thr (nat t, c)) in
@@ -59,7 +83,14 @@ let () =
   let push t o = w := MuXferModel.xbegin (MuXferReplay.xpush_op !w (nat t) o) (nat t) in
   let idle t = code t = 0 && not (busy t) in
   let chk_site s key = if int_of_z s <> key then fail (Printf.sprintf "model is at site %d, implementation at %d" (int_of_z s) key) in
-  let blk_thread blk what = (try Hashtbl.find thread_of_blk blk with Not_found -> fail (what ^ " on an unknown waiter " ^ blk)) in
+  (* a record in a thread's frame (region stk<t>) is the nsync_wait_n record of thread t *)
+  let stk_thread blk = if String.length blk > 3 && String.sub blk 0 3 = "stk" then (try Some (int_of_string (String.sub blk 3 (String.length blk - 3))) with _ -> None) else None in
+  let blk_thread blk what =
+    match stk_thread blk with
+    | Some u -> if not (MuXferModel.nrec !w (nat u) || code u = 20 || code u = 21) then fail (what ^ " on the frame of a thread that has no nsync_wait_n record in the model"); u
+    | None ->
+      let u = (try Hashtbl.find thread_of_blk blk with Not_found -> fail (what ^ " on an unknown waiter " ^ blk)) in
+      if MuXferModel.nrec !w (nat u) then fail (what ^ " on the waiter struct of a thread whose record is an nsync_wait_n record in the model"); u in
   (* compare a MuModel-style event with the trace event *)
   let cmp_mu (e : event) key ev =
     match e.kind, ev with
@@ -95,7 +126,7 @@ let () =
       | _ -> fail (Printf.sprintf "mu.c site %d while the model thread is idle" (f + ord))
     end;
     (match code t with
-     | 0 | 4 | 10 -> ()
+     | 0 | 4 | 10 | 22 | 27 -> ()
      | c -> fail (Printf.sprintf "mu.c event while the model thread is at wrapper pc %d" c));
     let key = (match f, ord with 600, 3 -> 601 | 900, 6 -> 904 | _ -> f + ord) in
     cover (string_of_int key);
@@ -104,6 +135,11 @@ let () =
     let ev = thr t CGo in
     cmp_mu e key ev;
     if c0 = 4 && code t = 5 then cover "wait:released";
+    if c0 = 22 && code t = 23 then cover "waitn:released";
+    if c0 = 27 && code t = 0 then begin
+      cover "waitn:reacquired";
+      if not (MuXferReplay.last_ret_ok !w (nat t)) then fail "the model logged a return of nsync_wait_n without the mutex held in the declared mode"
+    end;
     if c0 = 10 && code t = 0 then begin
       cover "wait:reacquired";
       if not (MuXferReplay.last_ret_ok !w (nat t)) then fail "the model logged a return of the wait without the mutex held in the declared mode"
@@ -165,13 +201,60 @@ let () =
     | 1206 | 1304 -> expect t 12 "signal.select"; sec t "select" (fun _ n -> cover (if n = 0 then "select:none" else if n = 1 then "select:one" else "select:many"))
     (* wake_waiters *)
     | 1001 -> expect t 13 "wake.load1"; cmp_mu e key (thr t CGo)
-    | 1002 -> expect t 14 "wake.cas1"; cmp_mu e key (thr t CGo);
-      if e.ok then cover (Printf.sprintf "transfer:%d" (Stdlib.List.length (Stdlib.List.filter (fun x -> MuXferReplay.xferred_of !w x) (MuXferReplay.mu_queue !w))))
+    | 1002 -> expect t 14 "wake.cas1";
+      let q0 = Stdlib.List.length (MuXferReplay.mu_queue !w) in
+      cmp_mu e key (thr t CGo);
+      if e.ok then begin
+        cover (Printf.sprintf "transfer:%d" (Stdlib.List.length (Stdlib.List.filter (fun x -> MuXferReplay.xferred_of !w x) (MuXferReplay.mu_queue !w))));
+        let q1 = Stdlib.List.length (MuXferReplay.mu_queue !w) in
+        if q1 > q0 then cover "cas1:moved" else begin cover "cas1:nobody"; if q1 = 0 then Hashtbl.replace nobody t true end
+      end
     | 1003 -> expect t 15 "wake.load3"; cmp_mu e key (thr t CGo)
-    | 1004 -> expect t 16 "wake.cas2"; cmp_mu e key (thr t CGo)
+    | 1004 -> expect t 16 "wake.cas2"; cmp_mu e key (thr t CGo);
+      if e.ok then begin
+        if (try Hashtbl.find nobody t with Not_found -> false) then begin
+          if e.a land 4 <> 0 && e.b land 4 = 0 then cover "cas1:nobody+waiting-cleared"
+          else fail "wake_waiters transferred nobody onto an empty queue and its release left MU_WAITING set"
+        end;
+        Hashtbl.remove nobody t
+      end
     | 1005 -> expect t 17 "wake.load5"; cmp_mu e key (thr t CGo)
-    | 1006 -> expect t 18 "wake.store"; cmp_mu e key (thr t CGo)
+    | 1006 -> expect t 18 "wake.store";
+      cover (if stk_thread (obj_region e.obj) <> None then "wake.store:waitn-record" else "wake.store:native");
+      cmp_mu e key (thr t CGo)
+    (* nsync_wait_n on the cv: cv_ready_time / cv_enqueue / cv_dequeue *)
+    | 1401 -> expect t 23 "waitn.ready_time"; cmp_mu e key (thr t CGo)
+    | 1501 -> expect t 21 "waitn.enqueue(481)"; if e.b <> 1 then fail "cv_enqueue stores a waiting flag other than 1"; incr skipped
+    | 1502 -> expect t 21 "waitn.enqueue(483)"; sec t "cv_enqueue" (fun _ _ -> ())
+    | 1601 ->
+      if code t = 24 then begin
+        (match thr t CAlt with XTimeout -> cover "waitn:deadline" | _ -> fail "model does not take the deadline step of nsync_wait_n") end;
+      expect t 25 "waitn.dequeue(492)";
+      if (e.a <> 0) <> (MuModel.waiting (MuXferModel.mw !w) (nat t)) then fail "waiting flag of the nsync_wait_n record differs inside cv_dequeue";
+      incr skipped
+    | 1602 -> expect t 25 "waitn.dequeue(502)"; if e.b <> 0 then fail "cv_dequeue stores a waiting flag other than 0"; Hashtbl.replace removed t true; incr skipped
+    | 1603 -> expect t 25 "waitn.dequeue(510)";
+      let r = (try Hashtbl.find removed t with Not_found -> false) in
+      Hashtbl.remove removed t;
+      sec t "cv_dequeue" (fun _ n ->
+          if (n = 1) <> r then fail (Printf.sprintf "cv_dequeue: model %s, implementation %s"
+                                      (if n = 1 then "unlinks the record" else "finds the record taken or woken")
+                                      (if r then "unlinked it" else "found it taken or woken"));
+          cover (if r then "dequeue:was-queued" else "dequeue:taken"))
+    | 1604 -> expect t 26 "waitn.spin"; cmp_mu e key (thr t CGo)
     | _ -> fail (Printf.sprintf "cv.c site %d outside the model" key) in
+  (* ---- wait.c ---- *)
+  let wait_event (e : event) fn ord =
+    let t = e.tid in
+    if fn <> "nsync_wait_n" || ord <> 1 then fail "site of wait.c outside the model";
+    cover "1701";
+    if not (idle t) then fail "nsync_wait_n starts while the model thread is busy";
+    (match stk_thread (obj_region e.obj) with
+     | Some u when u = t -> ()
+     | _ -> fail "nsync_wait_n record outside the caller's frame (count > 4 is not modelled)");
+    push t (XWaitN (MuXferReplay.held_of !w (nat t)));
+    expect t 20 "waitn.store0";
+    cmp_mu e 1701 (thr t CGo) in
   (* ---- semaphores ---- *)
   let sem_event (e : event) fn =
     let t = e.tid in
@@ -184,7 +267,12 @@ let () =
              | XMu EvP -> cover "sem:P-cv"
              | XMu EvBlocked -> fail "P succeeded in the implementation (cv wait) but the model's count is 0"
              | _ -> fail "implementation completed P, model elsewhere")
-          else if MuXferReplay.mu_sem_pc !w (nat t) && (code t = 0 || code t = 10) then
+          else if code t = 24 then
+            (match thr t CGo with
+             | XMu EvP -> cover "sem:P-waitn"
+             | XMu EvBlocked -> fail "P succeeded in the implementation (nsync_wait_n) but the model's count is 0"
+             | _ -> fail "implementation completed P, model elsewhere")
+          else if MuXferReplay.mu_sem_pc !w (nat t) && (code t = 0 || code t = 10 || code t = 27) then
             (match thr t CGo with
              | XMu EvP -> cover "sem:P-mu"
              | XMu EvBlocked -> fail "P succeeded in the implementation (lock_slow) but the model's count is 0"
@@ -192,8 +280,15 @@ let () =
           else fail (Printf.sprintf "P on the thread's semaphore at wrapper pc %d, which does not sleep" (code t))
         end else incr skipped
       end else if fn = "nsync_mu_semaphore_v" then begin
+        (* the semaphore of a thread that has not slept in nsync_mu_lock_slow_ / nsync_cv_wait yet: learnt from the model's target *)
+        (match (try Some (Hashtbl.find thread_of_blk blk) with Not_found -> None), MuXferReplay.v_target !w (nat t) with
+         | None, Some p when not (Hashtbl.mem main_blk (int_of_nat p)) -> learn_blk (int_of_nat p) blk; cover "sem:learnt-at-V"
+         | _ -> ());
         match (try Some (Hashtbl.find thread_of_blk blk) with Not_found -> None) with
-        | None -> incr skipped
+        | None ->
+          if String.length blk > 3 && String.sub blk 0 3 = "blk" && MuXferReplay.v_target !w (nat t) = None
+          then Hashtbl.replace pending_v blk (1 + try Hashtbl.find pending_v blk with Not_found -> 0);
+          incr skipped
         | Some u ->
           (match MuXferReplay.v_target !w (nat t) with
            | Some p ->
@@ -229,11 +324,12 @@ let () =
             | Some (fn, ord) when e.file = "mu.c" ->
               if fn = "nsync_remove_from_mu_queue_" then incr skipped
               else if region = "mu0"
-                      || (busy e.tid && (code e.tid = 0 || code e.tid = 4 || code e.tid = 10)
+                      || (busy e.tid && (code e.tid = 0 || code e.tid = 4 || code e.tid = 10 || code e.tid = 22 || code e.tid = 27)
                           && String.length region > 3 && String.sub region 0 3 = "blk"
                           && (fn = "nsync_mu_lock_slow_" || fn = "nsync_mu_unlock_slow_")) then mu_event e fn ord
               else incr skipped
             | Some (fn, _) when e.file = "nsync_semaphore_futex.c" -> sem_event e fn
+            | Some (fn, ord) when e.file = "wait.c" -> wait_event e fn ord
             | None when e.file = "cv.c" -> fail "trace site not in Gen/Sites"
             | _ ->
               if region = "mu0" && ((e.kind = "cas" && e.ok) || e.kind = "store") then fail "a write to the mutex word from code outside the model"
@@ -243,7 +339,8 @@ let () =
          | _ :: "CVQ" :: rest ->
            let rec split acc = function [] -> (Stdlib.List.rev acc, []) | "|" :: "MQ" :: r -> (Stdlib.List.rev acc, r) | x :: r -> split (x :: acc) r in
            let (cq, mq) = split [] rest in
-           let ids l = Stdlib.List.map (fun s -> try Hashtbl.find thread_of_blk (obj_region s) with Not_found -> -98) (Stdlib.List.filter (fun s -> s <> "") l) in
+           let ids l = Stdlib.List.map (fun s -> match stk_thread (obj_region s) with Some u -> u | None -> (try Hashtbl.find thread_of_blk (obj_region s) with Not_found -> -98))
+               (Stdlib.List.filter (fun s -> s <> "") l) in
            let show l = String.concat ";" (Stdlib.List.map string_of_int l) in
            if not !cv_open then begin
              incr snaps;
